@@ -72,6 +72,8 @@ type SessionInfo struct {
 	Emitted           int
 	LateCalls         bool
 	DisparityInNested bool
+	ValueLeaf         bool // a leaf is a value-type (non-pointer) iterator
+	SameValueSiblings bool // a mixer over two leaves of one and the same value type
 }
 
 const (
@@ -247,8 +249,11 @@ func openRound(no int, r Round, info *SessionInfo) *liveRound {
 			}
 			nd.want = sessEnc(s, no, nd.leaf, r.NilEmpty)
 			nd.it = source(r.Kinds[nd.leaf], nd.want)
-			if r.Kinds[nd.leaf] == KNoReset {
+			if !CanReset(r.Kinds[nd.leaf]) {
 				lr.resettable = false
+			}
+			if IsValueKind(r.Kinds[nd.leaf]) {
+				info.ValueLeaf = true
 			}
 			lr.created = append(lr.created, nd.it)
 			return
@@ -285,6 +290,9 @@ func openRound(no int, r Round, info *SessionInfo) *liveRound {
 		}
 		if nd.l.leaf < 0 && nd.r.leaf < 0 {
 			info.BothSidesMixers = true
+		}
+		if nd.l.leaf >= 0 && nd.r.leaf >= 0 && r.Kinds[nd.l.leaf] == r.Kinds[nd.r.leaf] && IsValueKind(r.Kinds[nd.l.leaf]) {
+			info.SameValueSiblings = true
 		}
 		if nd.depth >= 3 {
 			info.Depth3 = true
@@ -494,7 +502,7 @@ func runSession(s Session, info *SessionInfo) *vstat.Violation {
 			info.AfterDoubleClose = true
 			slices := 0
 			for _, k := range r.Kinds {
-				if k != KDisparity {
+				if k == KSlice || k == KNoReset {
 					slices++
 				}
 			}
@@ -602,6 +610,9 @@ func (i SessionInfo) Classes() []string {
 	add(i.Disciplines[3], "session_close_each_oldest_first")
 	add(i.LateCalls, "session_calls_after_other_trees_were_opened")
 	add(i.DisparityInNested, "session_disparity_source_below_inner_mixer")
+	add(i.ValueLeaf, "session_value_type_leaf")
+	add(i.SameValueSiblings, "session_mixer_over_two_leaves_of_one_value_type")
+	add(i.SameValueSiblings && i.ResetNested, "session_mixer_over_two_leaves_of_one_value_type_in_a_reset_nested_tree")
 	add(i.SelCalls > 0, "session_selector_consulted")
 	add(i.Emitted >= 20, "session_emitted_ge_20")
 	return c
